@@ -319,6 +319,8 @@ module Nat :
   val leb : nat -> nat -> bool
 
   val ltb : nat -> nat -> bool
+
+  val min : nat -> nat -> nat
  end
 
 module Pos :
@@ -418,6 +420,8 @@ module N :
   val pos_div_eucl : positive -> n -> n * n
 
   val div_eucl : n -> n -> n * n
+
+  val div : n -> n -> n
 
   val modulo : n -> n -> n
 
@@ -739,6 +743,8 @@ type headers = { stored : (bytes * bytes) list; content_length : n option;
                  bool }
 
 val new_headers : headers
+
+val new_nodate : headers
 
 val cONTENT_LENGTH : bytes
 
@@ -1320,3 +1326,76 @@ val boundaries : bytes list -> nat -> nat list
 val known_F20c : app0 -> nat -> bytes list -> bool
 
 val known_F21 : app0 -> nat -> bytes list -> bool
+
+val cRLF0 : bytes
+
+val digit : n -> byte
+
+val u16_to_ascii : n -> bytes
+
+val dec_digits : nat -> n -> bytes -> bytes
+
+val u64_to_ascii : n -> bytes
+
+val hexdigit_upper : n -> byte
+
+val hex_digits : nat -> n -> bytes -> bytes
+
+val hex_upper : n -> bytes
+
+val status_line : n -> bytes -> bytes
+
+val header_lines : headers -> bytes
+
+val head_fields : headers -> bytes -> bytes
+
+val content_length_header : n -> bytes
+
+val chunk : bytes -> bytes
+
+val lAST_CHUNK : bytes
+
+val iNLINE_COPY_MAX : nat
+
+val write_vectored_bytes : bytes -> bytes -> nat -> bytes
+
+type reader = bytes list
+
+val rd : nat -> reader -> bytes * reader
+
+val take_all : nat -> nat -> reader -> bytes -> bytes * reader
+
+val pROBE_MAX : nat
+
+val probe_body : nat -> reader -> bytes -> (bytes * bool) * reader
+
+val cHUNK_BUF : nat
+
+val write_chunked : nat -> reader -> bytes
+
+val reader_fuel : reader -> nat
+
+type wres =
+| WOk of bytes
+| WErr of bytes
+
+val write_response_empty : n -> bytes -> headers -> bytes -> wres
+
+val write_response_bytes :
+  n -> bytes -> headers -> bytes -> bytes -> nat -> wres
+
+val with_body : bytes -> headers -> bytes -> reader -> nat -> wres
+
+val write_response : n -> bytes -> headers -> bytes -> reader -> nat -> wres
+
+val write_request :
+  bytes -> bytes -> headers -> bytes -> reader -> nat -> wres
+
+type message = { m_start : bytes; m_fields : (bytes * bytes) list;
+                 m_body : bytes; m_rest : bytes }
+
+val dec_fields : nat -> bytes -> ((bytes * bytes) list * bytes) option
+
+val is_name : bytes -> (bytes * bytes) -> bool
+
+val decode_msg : bytes -> message option
